@@ -13,7 +13,7 @@ S3 = 'S3 movegen::has_legal_moves -> symbolic bool'
 S4 = 'S4 core::str::from_utf8 -> reference UTF-8 automaton'
 S5 = 'S5 Board::calc_outcome -> symbolic outcome'
 S6 = 'S6 legal::Checker::is_legal -> abstract predicate'
-STUBSETS = {'none': [], 'panics': [], 's1': [S1], 's12': [S1, S2], 's123': [S1, S2, S3], 's4': [S4], 's5': [S5],
+STUBSETS = {'none': [], 'panics': [], 's1': [S1], 's12': [S1, S2], 's123': [S1, S2, S3], 's13': [S1, S3], 's4': [S4], 's5': [S5],
             's126': [S1, S2, S6], 's1_utf8': [S1, S4], 's12_utf8': [S1, S2, S4]}
 
 FULL = 'FULL = every position accepted by Board::try_from (64 symbolic cells, side, rights, e.p. mark, both counters)'
@@ -33,13 +33,15 @@ def reg(name, prop, tiers, cap_s, mem_gb, domain, rust, stubset='none', unwind=2
 
 
 SIDES = [('w', 'WHITE', 'White to move'), ('b', 'BLACK', 'Black to move')]
-# move-kind groups: an exhaustive partition of the non-null kinds (+ null where a harness covers it)
-GROUPS = [('king', 'KG_SIMPLE_KING', 'king steps'), ('pawn', 'KG_SIMPLE_PAWN', 'pawn single steps and captures'),
-          ('knight', 'KG_SIMPLE_KNIGHT', 'knight moves'), ('slider', 'KG_SIMPLE_SLIDER', 'bishop/rook/queen moves'),
-          ('pspecial', 'KG_PAWN_SPECIAL', 'double steps and promotions'), ('ep', 'KG_EP', 'en passant'),
-          ('castling', 'KG_CASTLING', 'castling')]
+# move-kind groups: king..castling partition the non-null moves of the side to move; `foreign` =
+# tuples whose cell is empty / of the other colour (harnesses over all well-formed tuples only)
+GROUPS = [('king', 'KG_KING', 'king steps'), ('pawn', 'KG_PAWN', 'pawn single steps and captures'),
+          ('knight', 'KG_KNIGHT', 'knight moves'), ('bishop', 'KG_BISHOP', 'bishop moves'), ('rook', 'KG_ROOK', 'rook moves'),
+          ('queen', 'KG_QUEEN', 'queen moves'), ('pspecial', 'KG_PSPECIAL', 'double steps and promotions'),
+          ('ep', 'KG_EP', 'en passant'), ('castling', 'KG_CASTLING', 'castling')]
 NULLG = ('null', 'KG_NULL', 'null move')
-SPECIAL = {'king', 'pspecial', 'ep', 'castling', 'null'}   # where the property texts locate the risk
+FOREIGN = ('foreign', 'KG_FOREIGN', 'tuples naming an empty cell or a man of the side not to move')
+SPECIAL = {'king', 'pspecial', 'ep', 'castling', 'null', 'foreign'}   # where the property texts locate the risk
 
 
 def fam(prefix, prop, rust_fn, stubset, unwind, cap_s, mem_gb, what, groups=GROUPS, quick=SPECIAL, props=None, tiers_all=None,
@@ -69,7 +71,7 @@ reg('c20_deposit_bits_exact', 'C20', QT, 900, 6, 'all 64-bit masks x all 64-bit 
     bounds='64 iterations fully unrolled')
 reg('c20_bitboard_iter_16', 'C20', QT, 900, 8, 'all 64-bit sets with at most 16 members', 'c20::bitboard_iter::<_, 16>', unwind=18,
     bounds='sets with more than 16 members are decided by c20_bitboard_iter_step (one step from any state) only')
-reg('c20_bitboard_iter_step', 'C20', QT, 300, 4, 'all 64-bit sets: first item and remaining length', 'c20::bitboard_iter_step', unwind=2)
+reg('c20_bitboard_iter_step', 'C20', QT, 300, 4, 'all 64-bit sets: one step of the iterator from any state', 'c20::bitboard_iter_step', unwind=65)
 for n in ['file', 'rank', 'coord', 'piece', 'cell', 'castling']:
     reg('c20_%s_from_index_rejects' % n, 'C20', QT, 300, 4, 'every out-of-range usize', 'c20::%s_from_index_rejects' % n, 'panics')
 reg('c20_coord_add_rejects', 'C20', QT, 300, 4, 'every (square, i8 delta) leaving the board', 'c20::coord_add_rejects', 'panics')
@@ -89,7 +91,7 @@ fam_side('c16_attackers_exact', 'C16', 'c16::attackers_exact', 's12', 65, 3000, 
 # ---------------------------------------------------------------- C06
 reg('c06_wellformed_exact', 'C06', QT, 300, 4, 'all 10 x 13 x 64 x 64 move tuples (exhaustive)', 'c06::wellformed_exact', unwind=9)
 fam('c06_semilegal_validator', 'C06', 'c06::semilegal_validator_exact', 's12', 65, 2400, 10, 'all well-formed tuples of the group',
-    quick='all', props=['C06', 'C19'])
+    groups=GROUPS + [FOREIGN], quick='all', props=['C06', 'C19'])
 GENS = [('all', 'G_ALL'), ('capture', 'G_CAPTURE'), ('simple', 'G_SIMPLE'), ('simple_no_promote', 'G_SIMPLE_NO_PROMOTE'),
         ('simple_promote', 'G_SIMPLE_PROMOTE')]
 for gk, gc in GENS:
@@ -100,7 +102,7 @@ for gk, gc in GENS:
 
 # ---------------------------------------------------------------- C01
 fam('c01_prefiltered', 'C01', 'c01::prefiltered_legal_exact', 's12', 65, 3600, 14, 'all semilegal moves of the group', props=['C01', 'C19'])
-fam('c01_validate', 'C01', 'c01::validate_exact', 's12', 65, 3600, 12, 'all well-formed tuples of the group', quick=set())
+fam('c01_validate', 'C01', 'c01::validate_exact', 's12', 65, 3600, 12, 'all well-formed tuples of the group', groups=GROUPS + [FOREIGN], quick=set())
 fam('c01_try_unchecked', 'C01', 'c01::try_unchecked_exact', 's12', 65, 3600, 12, 'all semilegal moves of the group', quick=set())
 
 # ---------------------------------------------------------------- C03 / C04 / C05
@@ -131,6 +133,77 @@ reg('c10_uci_text_roundtrip', 'C10', T, 2400, 16, 'every UCI move value, through
     props=['C10', 'C12'])
 fam_side('c10_uci_string_readers', 'C10', 'c10::uci_string_readers', 's12', 65, 3600, 14, FULL + ' x every UTF-8 string of at most 5 bytes',
          tiers=T, props=['C10', 'C02'])
+
+# ---------------------------------------------------------------- C02
+fam('c02_make_move_step', 'C02', 'c02::make_move_step', 's12', 65, 3600, 14, 'all well-formed tuples of the group; validity of the result via '
+    'C11\'s conditions', groups=GROUPS + [FOREIGN], extra_const=', false')
+fam('c02_make_move_step_direct', 'C02', 'c02::make_move_step', 's12', 65, 7200, 16, 'as c02_make_move_step, and the result is re-validated '
+    'with the real Board::try_from', groups=[g for g in GROUPS if g[0] in ('ep', 'castling', 'pspecial', 'king')], quick=set(), extra_const=', true')
+
+# ---------------------------------------------------------------- C09 (value level)
+SANV = [('uci', 'V_UCI', 16), ('castling', 'V_CASTLING', 16), ('pawnmove', 'V_PAWN_MOVE', 16), ('pawncapture', 'V_PAWN_CAPTURE', 16),
+        ('pawnshort', 'V_PAWN_SHORT', 2), ('simple', 'V_SIMPLE', 2)]
+for vk, vc, k in SANV:
+    for sk, sc, sd in SIDES:
+        reg('c09_san_into_move_%s_%s' % (vk, sk), 'C09', T if vk in ('simple', 'pawnshort', 'uci') else QT, 5400, 16,
+            FULL + ('' if k == 16 else ' + GEN(%d)' % k) + '; every san::Data value of variant %s; %s' % (vk, sd),
+            'c09::san_into_move_sound::<_, %s, {crate::c09::%s}, %d>' % (sc, vc, k), 's12', 65 if k == 16 else 66,
+            bounds='' if k == 16 else 'GEN(%d): at most %d own men per kind (candidate loop bound)' % (k, k), props=['C09', 'C02'])
+for gk, gc, gd in GROUPS:
+    for sk, sc, sd in SIDES:
+        piece = gk in ('king', 'knight', 'bishop', 'rook', 'queen')
+        k = 2 if piece and gk != 'king' else 16
+        reg('c09_san_from_move_%s_%s' % (sk, gk), 'C09', QT if gk in ('ep', 'castling', 'pspecial') else T, 5400, 16,
+            FULL + ('' if k == 16 else ' + GEN(2)') + '; legal moves: %s; %s' % (gd, sd),
+            'c09::san_from_move::<_, %s, %s, %d>' % (sc, gc, k), 's123', 66,
+            bounds='' if k == 16 else 'GEN(2): at most 2 own men per kind, so at most one competing candidate', props=['C09'])
+
+# ---------------------------------------------------------------- C12
+reg('c12_coord_parse', 'C12', QT, 300, 4, 'every UTF-8 string of at most 4 bytes', 'c12::coord_parse', unwind=8, props=['C12', 'C20'])
+reg('c12_coord_roundtrip', 'C12', QT, 600, 6, 'all 64 squares through core::fmt', 'c12::coord_roundtrip', unwind=8, props=['C12', 'C20'])
+reg('c12_color_parse', 'C12', QT, 600, 6, 'every UTF-8 string of at most 3 bytes', 'c12::color_parse', unwind=8, props=['C12', 'C20'])
+reg('c12_cell_parse', 'C12', QT, 600, 6, 'every UTF-8 string of at most 3 bytes', 'c12::cell_parse', unwind=14, props=['C12', 'C20'])
+reg('c12_castling_parse', 'C12', QT, 600, 6, 'every UTF-8 string of at most 6 bytes', 'c12::castling_parse', unwind=8, props=['C12', 'C20'])
+reg('c12_castling_roundtrip', 'C12', QT, 900, 8, 'all 16 right sets through core::fmt', 'c12::castling_roundtrip', unwind=8, props=['C12', 'C20'])
+reg('c12_san_parse_total_5', 'C12', QT, 900, 8, 'every UTF-8 string of at most 5 bytes', 'c12::san_parse_total::<_, 5>', 's4', 9, props=['C12', 'C09'])
+reg('c12_san_parse_total_7', 'C12', T, 3600, 12, 'every UTF-8 string of at most 7 bytes', 'c12::san_parse_total::<_, 7>', 's4', 9, props=['C12', 'C09'])
+reg('c12_fen_board_field_16', 'C12', T, 3600, 12, 'FEN family (a): every space-free UTF-8 string of at most 16 bytes as the whole record',
+    'c12::fen_board_field::<_, 16>', unwind=18)
+reg('c12_fen_tail_12', 'C12', T, 3600, 12, 'FEN family (b): board field 4k3/8/8/8/8/8/8/4K3 followed by every UTF-8 string of at most 12 bytes',
+    'c12::fen_tail::<_, 12>', 's1', 66)
+
+# ---------------------------------------------------------------- C13 / C14 / C17
+CHAIN_STATES = [(0, 0), (0, 1), (0, 2), (0, 3), (1, 0), (1, 1), (1, 2), (1, 3), (2, 0), (2, 1), (3, 0), (3, 1), (4, 0), (4, 1), (5, 0), (5, 1), (5, 3), (5, 4)]
+QUICK_STATES = {(0, 0), (1, 1), (3, 0), (5, 4)}
+for st, pre in CHAIN_STATES:
+    for ok, oc in [('move', 'OP_PUSH_MOVE'), ('uci', 'OP_PUSH_UCI'), ('other', 'OP_OTHER')]:
+        q = (st, pre) in QUICK_STATES and ok != 'uci'
+        reg('c13_chain_step_s%d_p%d_%s' % (st, pre, ok), 'C13', QT if q else T, 3600, 14,
+            'chain state = stated start position %d after stated concrete prefix %d; one symbolic operation (%s), optionally followed by a pop' % (st, pre, ok),
+            'c13::chain_step::<_, %d, %d, {crate::c13::%s}>' % (st, pre, oc), 's13', 66,
+            bounds='pre-states from the stated finite sets START x PREFIX; BaseMoveChain<ArrRepeat>; two or more symbolic pushes are outside',
+            props=['C13', 'C14', 'C02', 'C04'])
+for st in range(6):
+    reg('c13_chain_eq_s%d' % st, 'C13', QT if st == 0 else T, 3600, 14, 'two chains from stated starts, one symbolic push and outcome each',
+        'c13::chain_eq::<_, %d>' % st, 's13', 66)
+for st, pre in [(0, 1), (1, 3), (5, 3), (2, 0)]:
+    reg('c17_walker_s%d_p%d' % (st, pre), 'C17', QT if (st, pre) == (0, 1) else T, 3600, 14,
+        'stated chain (start %d, prefix %d) extended by one symbolic accepted move; 6 symbolic walker operations' % (st, pre),
+        'c13::walker_steps::<_, %d, %d, 6>' % (st, pre), 's13', 66, bounds='chains of at most 9 moves; at most 6 walker operations')
+reg('c14_outcome_filter_table', 'C14', QT, 300, 4, 'all outcomes x 3 filters (exhaustive)', 'c14::outcome_filter_table')
+reg('c14_chain_outcome_precedence', 'C14', QT, 900, 8, 'all board outcomes x every usize count x 3 filters', 'c14::chain_outcome_precedence', 's5', 66)
+
+# ---------------------------------------------------------------- C18
+for hk, hc in [('v', 'MV'), ('h', 'MH')]:
+    for gk, gc, gd in GROUPS + [FOREIGN]:
+        for sk, sc, sd in SIDES:
+            reg('c18_mirror_move_%s_%s_%s' % (hk, sk, gk), 'C18', QT if (gk in ('ep', 'castling') and hk == 'v') or (gk == 'pspecial' and hk == 'h') else T, 7200, 16,
+                FULL + '; %s; moves: %s; mirror: %s' % (sd, gd, 'top-bottom + colours' if hk == 'v' else 'left-right (no castling rights)'),
+                'c18::mirror_move::<_, %s, %s, {crate::c18::%s}>' % (sc, gc, hc), 's12', 65)
+    for sk, sc, sd in SIDES:
+        reg('c18_mirror_outcome_%s_%s' % (hk, sk), 'C18', QT, 5400, 14, FULL + '; ' + sd, 'c18::mirror_outcome_eq::<_, %s, {crate::c18::%s}>' % (sc, hc), 's123', 65)
+        reg('c18_mirror_gen_%s_%s' % (hk, sk), 'C18', T, 10800, 24, FULL + ' + GEN(1); ' + sd, 'c18::mirror_gen::<_, %s, {crate::c18::%s}, 1>' % (sc, hc), 's12', 10,
+            bounds='GEN(1)')
 
 PROPS = ['C%02d' % i for i in range(1, 21)]
 
